@@ -265,12 +265,13 @@ func (e *storEnv) checkRead(what string, id atree.SlabID, got atree.Slab, found 
 	}
 }
 
-func storageStream(cfg *Config) *hx.Stats {
+func storageStream(cfg *Config) (res *hx.Stats) {
 	st := hx.NewStats("storage", cfg.Seed)
 	rng := rand.New(rand.NewSource(cfg.Seed*104729 + 5))
 	w := hx.NewW(filepath.Join(cfg.Out, fmt.Sprintf("storage-%d.trace", cfg.Seed)))
 	defer w.Close()
 	st.TraceFiles = append(st.TraceFiles, w.Path)
+	defer recoverAsViolation(st, w, &res)
 	nProg := int(120 * cfg.Scale)
 	seen := map[string]bool{}
 	for p := 0; p < nProg; p++ {
